@@ -91,11 +91,11 @@ Proof.
       exists name rest, s = name ++ SL :: rest /\ ~ In SL name /\ utf8_valid name = true /\ utf8_valid rest = true /\
                         cname = rev acc ++ Spec.chars name /\ crest = Spec.chars rest
     end)).
-  - intros acc. cbn. intros [].
+  - intros acc. cbn [Spec.chars utf8_chars map Spec.take_name In]. intros [].
   - intros b r Hb Hr IH acc. rewrite chars_cons1 by assumption. cbn [Spec.take_name]. unfold Spec.SLASH.
     destruct (N.eqb_spec b 47) as [->|Hne].
     + exists [], r. repeat split; try reflexivity; try assumption; [intros []|].
-      rewrite rev'_rev. cbn. rewrite app_nil_r. reflexivity.
+      rewrite rev'_rev. cbn [Spec.chars utf8_chars map]. rewrite app_nil_r. reflexivity.
     + specialize (IH (b :: acc)). destruct (Spec.take_name (Spec.chars r) (b :: acc)) as [cname [crest|]].
       * destruct IH as (name & rest & -> & Hn & Hvn & Hvr & -> & ->).
         exists (b :: name), rest. repeat split; try assumption; try reflexivity.
